@@ -3,6 +3,7 @@ CONSTANTS
   Focus = {1, 2, 3, 4, 5, 6, 7, 8, 9, 10}
   MaxSteps = 2
   Kinds2 = {"set", "subset", "refill", "same"}
+  MaxInit = 4
   FreeAll = FALSE
   Emit = TRUE
 INVARIANTS InitValid OpsValid ApplyAllowed RefillIsIdentity EmitCase
